@@ -431,7 +431,8 @@ def rewrite_for(src, toks, br, loop, spec_text, idx_name, log, kind_hint=None):
     if len(depth_ok) == 1 and re.match(r"^[A-Za-z_][A-Za-z0-9_]*$", pat):
         k = depth_ok[0]
         A = expr[:et[k].start].strip(); B = expr[et[k].end:].strip()
-        head = f"let mut {n} = {A}; let {n}_end = {B};\n while {n} < {n}_end\n{spec_text}\n {{\n let {pat} = {n}; {n} += 1;\n"
+        bind = "" if pat == "_" else f"let {pat} = {n}; "
+        head = f"let mut {n} = {A}; let {n}_end = {B};\n while {n} < {n}_end\n{spec_text}\n {{\n {bind}{n} += 1;\n"
         return head, f"for {pat} in {expr} {{ => counting loop from `{A}` up to (excluding) `{B}`"
     if re.match(r"^[A-Za-z_][A-Za-z0-9_]*$", expr) and kind_hint and "ref" in kind_hint:
         # `for PAT in s` where `s` is a `&[T]` / `&Vec<T>`: yields `&T`
